@@ -51,6 +51,18 @@ Theorem C20_failed_probe : forall s id,
 Proof. exact failed_probe_is_unhealthy. Qed.
 Print Assumptions C20_failed_probe.
 
+(* a probe attempt while the scrape manager has no client for the job (its HTTP client could not be built at the last
+   reload) is a failed probe like any other: nothing is sent, the entry shows as unhealthy, the retry timer is armed -
+   so C20_accounted covers it: it is retried until one succeeds *)
+Theorem C20_no_client_is_a_failed_probe : forall s id rest,
+  x_queue s = id :: rest -> (length (x_inflight s) < x_workers s)%nat -> tracked_id s id = true ->
+  existsb (N.eqb (e_job (obj s id))) (x_info s) = false ->
+  let s' := dispatch 1 s in
+  e_health (obj s' id) = Bad /\ e_err (obj s' id) = true /\ In id (x_timers s') /\
+  x_probes s' = x_probes s /\ x_inflight s' = x_inflight s /\ x_queue s' = rest.
+Proof. exact noinfo_is_failed_probe. Qed.
+Print Assumptions C20_no_client_is_a_failed_probe.
+
 (* the model's do_get / fire always append to the queue: in the code these are plain channel sends (they may block, they
    never drop the entry) on a channel of the capacity read off the source; regenerated on every run by the translator.
    The differential run cannot fill 10000 slots, so this tie is syntactic. *)
